@@ -280,6 +280,7 @@ type Obligation struct {
 	ModelLbl []string
 	// results
 	Status  string // unsat | sat | unknown | timeout | error
+	Retried bool
 	Backend string
 	TimeS   float64
 	Model   map[string]string
@@ -442,6 +443,13 @@ func (vc *VC) QueryOpt(o *Obligation, wantModel bool, groundOnly bool) string {
 		}
 	}
 	addSyms(o.Goal.S)
+	if wantModel {
+		for _, m := range o.ModelOf {
+			if strings.HasPrefix(m, "mv!") {
+				addSyms(m) // aliases of entry-heap contents for the replay
+			}
+		}
+	}
 	var as []assumption
 	var axioms []assumption
 	seen := map[string]bool{}
@@ -701,6 +709,33 @@ func Discharge(vcs []*VC, outDir string, timeoutS int, par int) {
 			j.o.Status, j.o.Backend, j.o.TimeS, j.o.Raw = r.status, r.backend, r.dur, r.out
 			if r.status == "sat" {
 				j.o.Model = parseValues(r.out)
+			}
+		}(i, j)
+	}
+	wg.Wait()
+	// Undecided obligations are retried with the machine quiet (4 at a time) and three times the budget:
+	// a definite answer is never revisited, so this can only turn a load-induced timeout into a verdict.
+	sem2 := make(chan struct{}, 4)
+	for i, j := range jobs {
+		if j.o.Cover || j.o.Status == "sat" || j.o.Status == "unsat" {
+			continue
+		}
+		wg.Add(1)
+		sem2 <- struct{}{}
+		go func(i int, j job) {
+			defer wg.Done()
+			defer func() { <-sem2 }()
+			base := fmt.Sprintf("q%04d_%s", i, sanitize(j.o.Name))
+			if len(base) > 110 {
+				base = base[:110]
+			}
+			r := Solve(outDir, base+"_retry", j.vc.Query(j.o, true), 3*timeoutS)
+			j.o.Retried = true
+			if r.status == "sat" || r.status == "unsat" {
+				j.o.Status, j.o.Backend, j.o.TimeS, j.o.Raw = r.status, r.backend, r.dur, r.out
+				if r.status == "sat" {
+					j.o.Model = parseValues(r.out)
+				}
 			}
 		}(i, j)
 	}
